@@ -47,6 +47,7 @@ type World struct {
 	lemmas      []*Clause
 	lemmaPkgs   []*types.Package
 	loopSpecs   map[string]*Contract
+	locSets     map[string][]string
 }
 
 type structInfo struct {
@@ -90,6 +91,7 @@ func newWorld() *World {
 		strConsts:   map[string]string{},
 		contractPkg: map[*Contract]*types.Package{},
 		loopSpecs:   map[string]*Contract{},
+		locSets:     map[string][]string{},
 	}
 }
 
